@@ -341,6 +341,14 @@ def execute(spec: Dict[str, Any], ctx: Ctx) -> None:
                 vals = r.vals()
                 if isinstance(fold, tuple) and fold[0] == "ambiguous":
                     ctx.count("probe.intersection_of_lookalike_values")
+                elif isinstance(fold, tuple) and "&" not in q["ops"] and not isinstance(vals, tuple):
+                    # a union evaluates every operand: if one of them raises alone, so must the union
+                    raise Violation(
+                        "C11.union",
+                        f"compound query {texts[qi]!r} on {core.short(d, 200)} gives {core.short(_untj_list(vals), 300)} although one of "
+                        f"its operands, evaluated alone, raises {fold[1]}",
+                        "C11.union:swallowed-error",
+                    )
                 elif isinstance(fold, tuple):
                     # an operand raises when evaluated alone: the compound may raise too (any of its operands'
                     # classes) or never get to evaluate that operand at all (nothing on the left to restrict)
